@@ -187,6 +187,37 @@ def run(ctx):
     run_ops(ctx, ops, 'optwork')
     if 'http_part' in globals():
         http_part(ctx)
+    uptime_part(ctx)
+
+
+def uptime_part(ctx):
+    """fingerprint_uptime on every kind of timestamp pair / elapsed time: a result or PacketError, never another exception"""
+    from .. import core
+    from . import C13
+    r = ctx.rng
+    ops = []
+    T32 = 2**32
+    for _ in range(ctx.n(12000, 300000)):
+        a = r.choice([0, 1, 5, 2**31, T32 - 1]) if r.random() < 0.4 else r.randrange(T32)
+        ms = r.choice([-5, 0, 1, 24, 25, 99, 100, 1000, 6000, 600000, 600001]) if r.random() < 0.5 else r.randrange(1, 700000)
+        c = r.random()
+        if c < 0.6:
+            hz = r.choice([0.1, 0.5, 0.69, 0.7, 0.75, 0.9, 0.99, 1, 1.5, 9.99, 10, 100, 1000, 1499, 1500, 1501, 5000])
+            dl = max(0, int(hz * ms / 1000) + r.choice([-1, 0, 0, 1]))
+        elif c < 0.8:
+            dl = r.choice([0, 1, 4, 5, 6, 2**31 - 1, 2**31, T32 - 15000, T32 - 5, T32 - 1])
+        else:
+            dl = r.randrange(T32)
+        ops.append(C13.op(r.choice([0x10, 0x12, 0x02, 0x18, 0x11, 0x04, 0x00, 0x52, 0x1ff]), r.choice([0, 0, 0, 1, 2]), a, (a + dl) % T32, ms))
+    ans = core.run_impl(ops)
+    ctx.evaluations += len(ops)
+    for line, a in zip(ops, ans):
+        cat = a.split(" ")[0]
+        ctx.hist["uptime:" + (a if a.startswith(("ERR", "EXC", "HANG")) else cat)] += 1
+        if a.startswith(("EXC", "HANG", "tps")) or (a.startswith("ERR") and a != "ERR packet"):
+            ctx.fail(f"fingerprint_uptime raised / answered {a!r} (neither a result nor PacketError)", op=line, impl=a)
+        elif a.startswith("v "):
+            ctx.nontrivial.add(line)
 
 
 def http_part(ctx):
